@@ -201,6 +201,43 @@ pub fn dispatch(op: &str, a: &[&str], _b: &[Vec<u8>]) -> Option<Ans> {
         "sbobj_encrypt" => by_cont!(sb_enc, &b[0], &b[1], &b[2]),
         // sbobj_decrypt <cont> key nonce bytes
         "sbobj_decrypt" => by_cont!(sb_dec, &b[0], &b[1], &b[2]),
+        // the Vec-box convenience forms and the borrowed-data constructors: same bytes as the generic forms
+        "boxobj_vecforms" => {
+            let (pk, sk, nonce): ([u8; 32], [u8; 32], [u8; 24]) = (arr(&b[0]), arr(&b[1]), arr(&b[2]));
+            let m = &b[3];
+            use dryoc::dryocbox::{VecBox, Mac, PublicKey as BPk, Nonce as BNonce};
+            let (bpk, bn): (BPk, BNonce) = (pk.into(), nonce.into());
+            let pre = dryoc::precalc::PrecalcSecretKey::precalculate(&pk, &sk);
+            let b1 = VecBox::encrypt_to_vecbox(m, &bn, &bpk, &sk).unwrap();
+            let b2 = VecBox::precalc_encrypt_to_vecbox(m, &bn, &pre).unwrap();
+            if b1.to_vec() != b2.to_vec() { return Some(("mismatch encrypt_to_vecbox != precalc_encrypt_to_vecbox".into(), "n/a".into())); }
+            let d1 = b1.decrypt_to_vec(&bn, &bpk, &sk);
+            let d2 = b1.precalc_decrypt_to_vec(&bn, &pre);
+            if d1.as_ref().ok() != Some(m) || d2.as_ref().ok() != Some(m) { return Some(("mismatch *_decrypt_to_vec".into(), "n/a".into())); }
+            // rebuild the box from borrowed parts
+            let wire = b1.to_vec();
+            let tag: Mac = Mac::try_from(&wire[..16]).unwrap();
+            let b3: VecBox = DryocBox::new_with_data_and_mac(tag.clone(), &wire[16..]);
+            if b3.to_vec() != wire || b3.decrypt_to_vec(&bn, &bpk, &sk).ok().as_ref() != Some(m) { return Some(("mismatch new_with_data_and_mac".into(), "n/a".into())); }
+            let b4: VecBox = DryocBox::new_with_epk_data_and_mac(bpk.clone(), tag, &wire[16..]);
+            let w4 = b4.to_vec();
+            if w4.len() != wire.len() + 32 || w4[..32] != pk[..] || w4[32..] != wire[..] { return Some(("mismatch new_with_epk_data_and_mac layout".into(), "n/a".into())); }
+            ok(&wire)
+        }
+        "sbobj_vecforms" => {
+            let key: [u8; 32] = arr(&b[0]);
+            let nonce: [u8; 24] = arr(&b[1]);
+            use dryoc::dryocsecretbox::{VecBox, Mac};
+            let bx = VecBox::encrypt_to_vecbox(&b[2], &nonce, &key);
+            let wire = bx.to_vec();
+            let tag: Mac = Mac::try_from(&wire[..16]).unwrap();
+            let b2: VecBox = DryocSecretBox::with_data_and_mac(tag, &wire[16..]);
+            if b2.to_vec() != wire || b2.decrypt_to_vec(&nonce, &key).ok().as_ref() != Some(&b[2]) { return Some(("mismatch with_data_and_mac".into(), "n/a".into())); }
+            let b3: VecBox = DryocSecretBox::with_data(&wire[16..]);
+            let w3 = b3.to_vec();
+            if w3.len() != wire.len() || w3[..16] != [0u8; 16] || w3[16..] != wire[16..] { return Some(("mismatch with_data (zero tag + data)".into(), "n/a".into())); }
+            ok(&wire)
+        }
         "sbobj_into_vec" => {
             let key: [u8; 32] = arr(&b[0]);
             let nonce: [u8; 24] = arr(&b[1]);
